@@ -139,6 +139,10 @@ func main() {
 		return rc
 	}
 
+	if prop == "SELFTEST" {
+		exit(selftest(work, bin, findings, *cases))
+	}
+
 	replayDir := filepath.Join(verifDir, "replays")
 	if *replaysFlag != "" {
 		replayDir = *replaysFlag
@@ -425,4 +429,93 @@ func main() {
 		exit(2)
 	}
 	exit(0)
+}
+
+// selftest runs the conformance self-test of the simulator's model pieces
+// and the determinism self-test: the same cases executed in many processes,
+// with different chunkings of the case range and different GOMAXPROCS, must
+// produce identical per-case digests. Exit 0 or 2, never 1.
+func selftest(work, bin, findings string, n int) int {
+	if n <= 0 {
+		n = 48
+	}
+	report := map[string]any{}
+	ok := true
+	{
+		var out bytes.Buffer
+		cmd := exec.Command(bin, "conformance", "300")
+		cmd.Dir = work
+		cmd.Stdout = &out
+		cmd.Stderr = os.Stderr
+		err := cmd.Run()
+		var res any
+		_ = json.Unmarshal(out.Bytes(), &res)
+		report["conformance"] = res
+		if err != nil {
+			fmt.Fprintln(os.Stderr, "selftest: conformance FAILED")
+			ok = false
+		}
+	}
+	type variant struct {
+		procs  int
+		chunks int
+	}
+	variants := []variant{{1, 1}, {4, 3}, {16, 8}, {2, n}} // the last one: one process per case
+	det := map[string]any{}
+	for _, prop := range []string{"C02", "C07", "C10", "C17", "C20"} {
+		ref := map[int]string{}
+		procs, mismatches := 0, 0
+		for vi, v := range variants {
+			for ch := 0; ch < v.chunks; ch++ {
+				from, to := ch*n/v.chunks, (ch+1)*n/v.chunks
+				if from == to {
+					continue
+				}
+				if v.chunks == n && ch%4 != 0 { // single-case processes: every 4th case
+					continue
+				}
+				out := filepath.Join(work, fmt.Sprintf("st-%s-%d-%d.json", prop, vi, ch))
+				cmd := exec.Command(bin, prop, "worker", "-seed", "7", "-from", fmt.Sprint(from), "-to", fmt.Sprint(to),
+					"-out", out, "-findings", findings, "-digests", "-maxfail", "1000000")
+				cmd.Dir = work
+				cmd.Env = append(os.Environ(), fmt.Sprintf("GOMAXPROCS=%d", v.procs))
+				if err := cmd.Run(); err != nil {
+					fmt.Fprintf(os.Stderr, "selftest: %s worker failed: %v\n", prop, err)
+					ok = false
+					continue
+				}
+				procs++
+				var r harness.WorkerResult
+				if err := readJSON(out, &r); err != nil {
+					ok = false
+					continue
+				}
+				for i, d := range r.CaseDigests {
+					idx := from + i
+					if old, has := ref[idx]; has && old != d {
+						mismatches++
+						fmt.Fprintf(os.Stderr, "selftest: %s case %d: digest %s vs %s (GOMAXPROCS=%d chunks=%d)\n", prop, idx, old, d, v.procs, v.chunks)
+					} else if !has {
+						ref[idx] = d
+					}
+				}
+			}
+		}
+		det[prop] = map[string]int{"cases": len(ref), "processes": procs, "mismatches": mismatches}
+		if mismatches > 0 {
+			ok = false
+		}
+		fmt.Printf("selftest determinism %s: %d cases, %d processes, %d mismatches\n", prop, len(ref), procs, mismatches)
+	}
+	report["determinism"] = det
+	report["ok"] = ok
+	b, _ := json.MarshalIndent(report, "", " ")
+	_ = os.MkdirAll(filepath.Join(verifDir, "selftest"), 0o755)
+	_ = os.WriteFile(filepath.Join(verifDir, "selftest", "selftest-report.json"), b, 0o644)
+	if !ok {
+		fmt.Println("selftest FAILED")
+		return 2
+	}
+	fmt.Println("selftest ok")
+	return 0
 }
